@@ -40,7 +40,14 @@ def run_module_configs(rep, tier):
     base = scratch("wvc16")
     other = scratch("wvc16-a-much-longer-directory-name") + "/nested/deeper/checkout"
     try:
-        R.write_module(base, progs)
+        # a few very small packages next to the programs: with a header file, what is generated for one package must not depend on
+        # which other packages the same invocation generates (buffers shared between packages show only on small outputs)
+        tiny = {}
+        for k in range(4):
+            tiny["tiny%d/t.go" % k] = "package tiny%d\n\ntype T struct{ N int }\n\nfunc NewT() T { return T{N: %d} }\n" % (k, k)
+            tiny["tiny%d/wire.go" % k] = ("//go:build wireinject\n// +build wireinject\n\npackage tiny%d\n\nimport \"github.com/google/wire\"\n\n"
+                                          "func Init%d() T {\n\tpanic(wire.Build(NewT))\n}\n" % (k, k))
+        R.write_module(base, progs, tiny)
         rc, out, err = run([WIRE, "gen", "./..."], cwd=base, env=dict(GOENV), timeout=600)
         ref = collect(base, progs)
         ok = [p for p in progs if ref[p.name] is not None]
@@ -94,6 +101,39 @@ def run_module_configs(rep, tier):
             clean(base, [p])
             run([WIRE, "gen", p.path("app")], cwd=base + "/wtrace", env=dict(GOENV), timeout=120)
             compare("cwd = unrelated package directory, import-path pattern", collect(base, [p]), only={p.name})
+        # header file: every output is the header followed by the plain output, whatever else the invocation generates
+        hdr = "// Copyright notice of the project.\n// Second line.\n\n"
+        open(base + "/hdr.txt", "w").write(hdr)
+
+        def tiny_out():
+            return {k: (open("%s/tiny%d/wire_gen.go" % (base, k)).read() if os.path.exists("%s/tiny%d/wire_gen.go" % (base, k)) else None) for k in range(4)}
+
+        def tiny_clean():
+            for k in range(4):
+                if os.path.exists("%s/tiny%d/wire_gen.go" % (base, k)):
+                    os.remove("%s/tiny%d/wire_gen.go" % (base, k))
+        plain = tiny_out()
+        alone = {}
+        for k in range(4):
+            tiny_clean()
+            run([WIRE, "gen", "-header_file", base + "/hdr.txt", "./tiny%d" % k], cwd=base, env=dict(GOENV), timeout=120)
+            alone[k] = tiny_out()[k]
+        for label, pats in (("all four", ["./tiny0", "./tiny1", "./tiny2", "./tiny3"]), ("reverse order", ["./tiny3", "./tiny2", "./tiny1", "./tiny0"]),
+                            ("two", ["./tiny1", "./tiny2"]), ("whole module", ["./..."])):
+            tiny_clean()
+            run([WIRE, "gen", "-header_file", base + "/hdr.txt"] + pats, cwd=base, env=dict(GOENV), timeout=600)
+            got = tiny_out()
+            configs += 1
+            for k in range(4):
+                if ("./tiny%d" % k) not in pats and pats != ["./..."]:
+                    continue
+                rep.evaluations += 1
+                if plain[k] is None or alone[k] != hdr + plain[k] or got[k] != alone[k]:
+                    fails.append({"stream": "c16", "why": ["with -header_file, the output for package tiny%d generated together with other packages (%s) "
+                                                           "differs from the output generated alone / from header + plain output" % (k, label)],
+                                  "alone": (alone[k] or "<none>")[:800], "together": (got[k] or "<none>")[:800]})
+        if os.path.exists(base + "/hdr.txt"):
+            os.remove(base + "/hdr.txt")
         # nothing run-specific in the output
         for p in ok:
             txt = ref[p.name]
